@@ -326,3 +326,86 @@ _acc_contract('run_evolution[TimeDependentSingleSiteTDVP]', TDVP, 'TimeDependent
                            'self.evolved_time == old(self.evolved_time) + _i * dt'],
                    'frame': {'self': ['trunc_err', 'evolved_time', 'trunc_err_list', 'dt']}, 'ghost_mut': ['performed']}},
               target=f'{ALG}::TimeDependentHAlgorithm.run_evolution')
+
+
+# ---------------------------------------------------------------------------------------------
+# Time-dependent drivers: after reinit_model() the engine works with H(evolved_time) - the model carries that time, and whatever
+# the engine caches from the model is refreshed: TEBD / ExpMPO are told to recompute their propagators (force_prepare_evolve), the
+# TDVP drivers rebuild their environments *with the new model* (init_env(None) means "keep the model used before").
+# Ghost: `update_time_parameter(t)` returns a fresh model object whose options carry time == t; init_env records its argument.
+def _td_setup(I, env):
+    s = env['self']
+    old_time = _z3.Real('model_time0')
+    has_time = _z3.Bool('model_has_time0')
+
+    def mk_model(time, has):
+        m = _SObj('GhostModel', None, {'time': time, 'has_time': has})
+
+        def get2(I_, key, default=None, *a, **k):
+            if key != 'time':
+                return default
+            if I_.branch(has):
+                return time
+            return None
+        m.attrs['options'] = _SObj('OptionsRecord', None, {'get': _Builtin(get2, 'options.get')})
+
+        def utp(I_, new_time):
+            return mk_model(new_time, _z3.BoolVal(True))
+        m.attrs['update_time_parameter'] = _Builtin(utp, 'model.update_time_parameter')
+        return m
+    s.attrs['model'] = mk_model(old_time, has_time)
+    I.ghost['__env__'] = {'model0': s.attrs['model'], 'env_model': 'never initialised', 'env_inits': 0}
+
+
+def _init_env_hook(I, f, args, kwargs):
+    g = I.ghost['__env__']
+    g['env_model'] = args[0] if args else kwargs.get('model')
+    g['env_inits'] = g['env_inits'] + 1
+    return None
+
+
+
+def _hunt_td():
+    """witness on the real drivers: after one step the environment must hold the MPO of the *current* model"""
+    import warnings
+    warnings.simplefilter('ignore')
+    from tenpy.models.spins import SpinChain
+    from tenpy.networks.mps import MPS
+    from tenpy.algorithms import tdvp, tebd
+
+    class DrivenChain(SpinChain):
+        def init_terms(self, model_params):
+            t = model_params.get('time', 0., 'real')
+            super().init_terms(model_params)
+            self.add_coupling(1.5 * t, 0, 'Sz', 0, 'Sz', 1)
+    pars = {'L': 4, 'S': 0.5, 'Jx': 1.0, 'Jy': 1.0, 'Jz': 0.5, 'bc_MPS': 'finite', 'conserve': 'Sz'}
+    for name in ('TimeDependentSingleSiteTDVP', 'TimeDependentTwoSiteTDVP'):
+        M = DrivenChain(dict(pars, time=0.))
+        psi = MPS.from_product_state(M.lat.mps_sites(), ['up', 'down'] * 2, 'finite')
+        tebd.TEBDEngine(psi, M, {'dt': 0.05, 'N_steps': 4, 'trunc_params': {'chi_max': 16}}).run()
+        eng = getattr(tdvp, name)(psi, M, {'dt': 0.1, 'N_steps': 2, 'trunc_params': {'chi_max': 16}})
+        eng.run()
+        t_model = eng.model.options.get('time', None)
+        if eng.env.H is not eng.model.H_MPO or abs(t_model - eng.evolved_time) > 1e-12:
+            return {'input': {'engine': name, 'model': 'SpinChain + 1.5 t SzSz, L=4', 'dt': 0.1, 'N_steps': 2},
+                    'observed': f'after run(): evolved_time={eng.evolved_time}, model time={t_model}, '
+                                f'environment built from the MPO of the current model: {eng.env.H is eng.model.H_MPO}'}
+    return None
+
+
+_TD_ENGINE = lambda cls, path: Obj(cls, path, {'evolved_time': Real(), 'force_prepare_evolve': Bool()})
+_TD_POST = ['self.model.has_time and self.model.time == self.evolved_time',              # the model is H(evolved_time)
+            'self.evolved_time == old(self.evolved_time)',
+            # a new model was built unless the old one was already at that time; then the cached propagators are invalidated
+            'implies(not (self.model is model0), self.force_prepare_evolve == True)',
+            'implies(self.model is model0, model0.has_time and model0.time == self.evolved_time)']
+
+Contract(target=f'{ALG}::TimeDependentHAlgorithm.reinit_model', props=['C14'], name='TimeDependentHAlgorithm.reinit_model',
+         params={'self': _TD_ENGINE('TimeDependentHAlgorithm', ALG)}, setup=_td_setup, ensures=_TD_POST)
+
+for _cls in ('TimeDependentSingleSiteTDVP', 'TimeDependentTwoSiteTDVP'):
+    Contract(target=f'{TDVP}::{_cls}.reinit_model', props=['C14'], name=f'{_cls}.reinit_model',
+             params={'self': _TD_ENGINE(_cls, TDVP)}, setup=_td_setup, hunt=_hunt_td,
+             hooks={f'{MPSC}::Sweep.init_env': _init_env_hook, f'{TDVP}::TDVPEngine.init_env': _init_env_hook,
+                    f'{TDVP}::{_cls}.init_env': _init_env_hook},
+             ensures=_TD_POST + ['env_inits == 1 and env_model is self.model'])       # environments rebuilt once, with the current model
